@@ -253,13 +253,19 @@ def readPairs : Nat → List Char → Option (List (String × Int))
         | c1 :: c2 :: r => if c1 = ',' ∧ c2 = ' ' then (readPairs n r).map (p :: ·) else none
         | _ => none
 
+def distinctKeys (ps : List (String × Int)) : Bool := decide (ps.map (·.1)).Nodup
+
 def loadL : List Char → Option Val
   | [] => none
   | c :: r =>
     if c = '[' then
       if r = [']'] then some (.list []) else (readItems r.length r).map .list
     else if c = '{' then
-      if r = ['}'] then some (.dict []) else (readPairs r.length r).map .dict
+      if r = ['}'] then some (.dict [])
+      else
+        match readPairs r.length r with
+        | some ps => if distinctKeys ps then some (.dict ps) else none   -- a repeated key is not the text of a dict
+        | none => none
     else
       match readTok (c :: r) with
       | some (s, []) => some (.sc s)
@@ -559,7 +565,7 @@ def safeScalar : Scalar → Bool
 def safeVal : Val → Bool
   | .sc s => safeScalar s
   | .list xs => xs.all safeScalar
-  | .dict kvs => kvs.all (fun kv => kv.1.toList.all safeChar)
+  | .dict kvs => kvs.all (fun kv => kv.1.toList.all safeChar) && distinctKeys kvs
 
 def isStrVal : Val → Bool
   | .sc (.str _) => true
